@@ -9,7 +9,7 @@ for d in seeded/C*-*/; do
   id=$(basename $d | cut -d- -f1)
   extra=""
   [ -f $d/also.txt ] && extra=$(cat $d/also.txt)
-  if ! git -C /repo apply --check $d/patch.diff 2>/dev/null; then
+  if ! git -C /repo apply --check "$PWD/$d/patch.diff" 2>/dev/null; then
     echo -e "$(basename $d)\t-\tpatch-does-not-apply\t" >> $out
     continue
   fi
